@@ -37,7 +37,11 @@ SEC_REASONS = {12, 13, 14, 15, 16}
 CLASSES = ['valid', 'valid-scope', 'dup-params-apart', 'none', 'wrong-tag', 'unknown-kid', 'altered-target', 'altered-primary', 'unknown-context', 'missing-target',
            'dup-params', 'dup-results', 'count-mismatch', 'two-results', 'zero-results', 'garbage-cose', 'wrong-msg-type', 'truncated-cose',
            'not-an-asb', 'asb-bad-source', 'scope-missing-block', 'two-blocks-first-bad', 'two-blocks-second-bad',
-           'two-blocks-both-good', 'multi-target-first-bad', 'multi-target-last-bad', 'multi-target-good', 'attached-original-altered-target']
+           'two-blocks-both-good', 'multi-target-first-bad', 'multi-target-last-bad', 'multi-target-good', 'attached-original-altered-target',
+           'decoy-shares-number']
+# classes whose bundles are also structurally malformed for RFC 9171 (two blocks with one number): only "not delivered" is demanded,
+# a drop at decoding (even by an exception out of the receive callback) is as good as a deletion
+MALFORMED = ('decoy-shares-number',)
 
 
 def build(cls, variant, rng, report):
@@ -110,7 +114,11 @@ def build(cls, variant, rng, report):
         add_block(kind, pay, 2)
         pri['lifetime'] += 1
     elif cls == 'unknown-context':
-        add_block(kind, pay, 2, mutate=lambda asb, sec, tgt: asb.update(context_id=rng.choice([1, 2, 99, 65536])))
+        def mut(asb, sec, tgt):
+            asb.update(context_id=rng.choice([1, 2, 99, 65536, -7]))
+            # whatever the block processing flags of the security block say (they are not authenticated)
+            sec['flags'] = rng.choice([0, 0, 0x10, 0x11, 0x12, 0x04, 0x14])
+        add_block(kind, pay, 2, mutate=mut)
     elif cls == 'missing-target':
         add_block(kind, pay, 2, mutate=lambda asb, sec, tgt: asb.update(targets=[77]))
     elif cls == 'dup-params':
@@ -169,6 +177,19 @@ def build(cls, variant, rng, report):
             asb['results'][0][0] = (rid, cw.enc(msg))
             tgt['data'] = bytes(tgt['data'][:-1]) + bytes([(tgt['data'][-1] if tgt['data'] else 0) ^ 0x55]) if tgt['data'] else b'forged'
         add_block(kind, pay, 2, mutate=mut)
+    elif cls == 'decoy-shares-number':
+        # the target is altered and a harmless-looking block with the security block's own number is put in front of it (or the
+        # security block is renumbered to the number of a block that precedes it)
+        def mut(asb, sec, tgt):
+            tgt['data'] = (bytes([tgt['data'][0] ^ 0x80]) + tgt['data'][1:]) if tgt['data'] else b'\x00'
+        sec = add_block(kind, pay, 2, mutate=mut)
+        if rng.random() < 0.5:
+            bundle['blocks'].insert(0, dict(type=rng.choice([192, 7, 10]), num=2, flags=0, crc_type=crc, data=cw.enc(rng.choice([0, 77])), crc=None))
+        else:
+            # renumber: [extra(9), sec(9), payload]
+            bundle['blocks'].remove(sec)
+            bundle['blocks'].insert(1, sec)
+            sec['num'] = 9
     elif cls.startswith('two-blocks'):
         first_bad = cls == 'two-blocks-first-bad'
         second_bad = cls == 'two-blocks-second-bad'
@@ -211,6 +232,11 @@ def check(cls, variant, keys, accept, report, rng, obs):
     detail = dict(bundle=data.hex(), oracle=(verdict, why))
     dec, _ = bpv7.decode(data)
     wire_payload = bpv7.payload_of(dec)['data']
+    if cls in MALFORMED:
+        obs['expect_fail'] += 1
+        if delivered:
+            problems.append(('delivered', 'delivered although the security block (%s) does not verify: its number is shared with another block' % why[:60]))
+        return problems, detail, desc
     if err is not None:
         problems.append(('raised', 'the receive callback raised %s: %s' % (type(err).__name__, str(err)[:80])))
     if errs:
@@ -264,6 +290,48 @@ def check(cls, variant, keys, accept, report, rng, obs):
                 else:
                     obs['reports_with_security_reason'] += 1
     return problems, detail, desc
+
+
+def check_fragmented(rng, accept, altered, obs):
+    ''' A bundle with an integrity block (oracle-built) arrives as fragments, the one with offset 0 (which carries the security
+    block) not first; the payload was altered before fragmentation, or not.  What is verified is the reassembled bundle. '''
+    from vf.world.sim import Sim
+    from vf import sec_harness as sh
+    data, plain, desc = build('altered-target' if altered else 'valid', 'bib', rng, False)
+    dec = bpv7.decode(data)[0]
+    payload = bpv7.payload_of(dec)['data']
+    if len(payload) < 3:
+        return None
+    exts = [dict(blk, crc=None) for blk in dec['blocks'] if blk['type'] != 1]
+    cuts = sorted(set([0, len(payload)] + rng.sample(range(1, len(payload)), rng.choice([1, 2]))))
+    frags = []
+    for lo, hi in zip(cuts, cuts[1:]):
+        pri = dict(dec['primary'], flags=dec['primary']['flags'] | bpv7.FLAG_IS_FRAGMENT, frag_offset=lo, total_adu_len=len(payload), crc=None)
+        blocks = [dict(blk) for blk in exts if lo == 0] + [dict(type=1, num=1, flags=0, crc_type=dec['blocks'][-1]['crc_type'], data=payload[lo:hi], crc=None)]
+        frags.append(bpv7.encode(dict(primary=pri, blocks=blocks)))
+    order = list(range(len(frags)))
+    while order[0] == 0:
+        rng.shuffle(order)
+    sim = Sim(0, 'eager')
+    dst = sh.receiver_node(sim, 'all', accept=accept)
+    for idx in order:
+        err = dst.recv(frags[idx])
+        sim.settle(5000)
+        if err is not None or sim.world.callback_errors:
+            return [('raised', 'fragment %d of a signed bundle: exception %s' % (idx, err or sim.world.callback_errors[0].exc_type))]
+    obs['bundles'] += 1
+    obs['fragmented_signed'] = obs.get('fragmented_signed', 0) + 1
+    delivered = dst.delivered()
+    what = 'signed bundle (payload %s) arriving as fragments in order %s, accept=%s' % ('altered before fragmentation' if altered else 'unmodified', order, accept)
+    if altered:
+        obs['expect_fail'] += 1
+        if delivered:
+            return [('delivered', '%s: delivered although the integrity block does not verify for the reassembled payload' % what)]
+    else:
+        obs['expect_deliver'] += 1
+        if len(delivered) != 1:
+            return [('not-delivered', '%s: %d deliveries' % (what, len(delivered)))]
+    return []
 
 
 def x5t_history(keys_mode, accept, obs):
@@ -338,6 +406,7 @@ def cases(tier, seed):
             idx += 1
     out.append(dict(id='x5t-history', cls='x5t-history', variant='bib', seed=seed, reps=1))
     out.append(dict(id='cert-variants', cls='cert-variants', variant='bib', seed=seed, reps=1))
+    out.append(dict(id='fragmented', cls='fragmented', variant='bib', seed=seed, reps=1, count=(120 if tier == 'thorough' else 16)))
     return out
 
 
@@ -357,6 +426,17 @@ def run_case(case):
                         violations.append(dict(key=None, what='[%s] keys=%s accept=%s: %s' % (kind, keys, accept, text), detail=detail))
                     classes.add('x5t-history|%s|%s' % (keys, accept))
                     evaluations += 1
+            case = dict(case, reps=0)
+        if case['cls'] == 'fragmented':
+            for rep in range(case['count']):
+                accept, altered = bool(rep % 2), bool((rep // 2) % 2)
+                problems = check_fragmented(rng, accept, altered, obs)
+                if problems is None:
+                    continue
+                evaluations += 1
+                classes.add('fragmented|%d' % rep)
+                for (kind, text) in problems:
+                    violations.append(dict(key=None, what='[%s] %s' % (kind, text), detail=dict(rep=rep)))
             case = dict(case, reps=0)
         if case['cls'] == 'cert-variants':
             # signed under certificates that are not the security source's (wrong key by identity): never delivered
